@@ -190,6 +190,17 @@ def run(pid, tier, seed, replay=None):
         for d in os.listdir(w):
             if d.startswith("corpus_runs"):
                 shutil.rmtree(os.path.join(w, d), ignore_errors=True)
+    # design-level half (DESIGN §6 C01, first bullet): the link-layer ImplSpec has no hidden choice --
+    # once the labelled oracle inputs (sampled latency, fail/repair coins, shuffled host order) are
+    # fixed, every state has at most one successor per label.  A failure here is a defect of the
+    # specification, not of the code: machinery error.
+    import detwalk
+    dw = detwalk.walk("toplink", "TopLink", detwalk.TOPLINK_CFG, f"{pid}_detwalk_{os.getpid()}")
+    ck.extra["design_level_no_hidden_choice"] = dict(dw, spec="specs/toplink/TopLink.tla")
+    log(f"[{pid}] design-level walk of TopLink: {dw['states']} states, {dw['edges']} edges, "
+        f"{dw['states_with_choice']} states with labelled choices, hidden choices: {dw['hidden_count']}")
+    if dw["hidden_count"]:
+        raise MachineryError(f"TopLink has a transition choice its label does not determine: {dw['hidden'][:1]}")
     ck.extra["rule"] = ("cases: seeded scenarios from `det mk`, each executed 4 times (2 in one process, 2 in fresh "
                         "processes) and compared record by record by TLC; evaluations = executions; distinct_nontrivial = "
                         "scenarios whose trace has >= 30 records and contains network tracing events or fs / io_uring "
